@@ -75,12 +75,12 @@ RunVerdict(e) ==
     ELSE LET A    == Assign(n, items)
              obl  == ObligedModes(n, items, e.run)
              nomeas == {m \in obl : ~MeasOK(A[m].kind, e.factors[m + 1])}
-             bad  == {m \in obl \ nomeas : ~Feasible(A[m].kind, A[m].par, e.factors[m + 1])}
+             bad  == {m \in obl \ nomeas : ~FeasibleT(A[m].kind, A[m].par, e.factors[m + 1], TolOf(e.run.dtype))}
              \* returned as supplied: a supplied factor that was feasible (judged here, on e.start) stays feasible
              kept == {m \in KeptModes(n, items, e.run) : /\ MeasOK(A[m].kind, e.start[m + 1])
-                                                        /\ Feasible(A[m].kind, A[m].par, e.start[m + 1])}
+                                                        /\ FeasibleT(A[m].kind, A[m].par, e.start[m + 1], TolOf(e.run.dtype))}
              lost == {m \in kept : ~(/\ MeasOK(A[m].kind, e.factors[m + 1])
-                                     /\ Feasible(A[m].kind, A[m].par, e.factors[m + 1]))} IN
+                                     /\ FeasibleT(A[m].kind, A[m].par, e.factors[m + 1], TolOf(e.run.dtype)))} IN
          IF nomeas # {} /\ ~UnderflowRegime(e.run) THEN <<"Finite", LeastOf(nomeas)>>
          ELSE IF bad # {} THEN <<ClauseOf(A[LeastOf(bad)].kind), LeastOf(bad)>>
          ELSE IF lost # {} THEN <<"SuppliedFeasibleLost", LeastOf(lost)>>
@@ -99,7 +99,7 @@ ProxVerdict(e) ==
               /\ \A c \in 1..Len(F.cols) : Len(F.cols[c].diffs) = F.rows - 1) THEN <<"Shape", e.run.mode>>
          ELSE IF kp.kind \notin HardKinds THEN <<"ok", -1>>
          ELSE IF ~MeasOK(kp.kind, F) THEN <<"Finite", e.run.mode>>
-         ELSE IF ~Feasible(kp.kind, kp.par, F) THEN <<ClauseOf(kp.kind), e.run.mode>>
+         ELSE IF ~FeasibleT(kp.kind, kp.par, F, TolOf(e.run.dtype)) THEN <<ClauseOf(kp.kind), e.run.mode>>
          ELSE <<"ok", -1>>
 
 Verdict(e) == IF e.op = "map" THEN MapVerdict(e)
